@@ -162,8 +162,9 @@ def install():
                 setattr(mod, attr, seams.SimPool)
                 rebound.append(f"{name}.{attr}")
     multiprocessing.Pool = seams.SimPool
-    if not rebound:
-        raise HarnessError("attachment failed: no module of the package refers to multiprocessing.Pool")
+    # pools created through a context object: multiprocessing.get_context(...).Pool()
+    MODS.setdefault("real_ctx_pool", multiprocessing.context.BaseContext.Pool)
+    multiprocessing.context.BaseContext.Pool = lambda self, *a, **k: seams.SimPool(*a, **k)
     MODS["pool_refs"] = rebound
 
     # observation seam: entry / exit of Panoptica_Evaluator.evaluate
